@@ -298,8 +298,11 @@ def write_evidence(prop, mod, res, tier, seed, wall):
         wall_s=round(wall, 2),
         violations=len(res.violations),
     )
-    os.makedirs(os.path.join(VERIF, 'evidence'), exist_ok=True)
-    with open(os.path.join(VERIF, 'evidence', prop + '.json'), 'w') as f:
+    # experiments on a modified tree (tools/try_patch.sh, seed_matrix.sh) set VERIF_EVIDENCE_DIR so that evidence/ only ever
+    # holds records of runs against /repo as it stands
+    evdir = os.environ.get('VERIF_EVIDENCE_DIR') or os.path.join(VERIF, 'evidence')
+    os.makedirs(evdir, exist_ok=True)
+    with open(os.path.join(evdir, prop + '.json'), 'w') as f:
         json.dump(ev, f, indent=1, default=str)
 
 def do_replay(prop, mod, path):
